@@ -240,3 +240,22 @@ Qed.
 (* on well-formed descriptions the repaired and the unrepaired function agree *)
 Example ex_before_fix_agrees : M_simple_decode_before_fix 1 ex_b = M_simple_decode 1 ex_b.
 Proof. vm_compute. reflexivity. Qed.
+
+(* ---- remaining hypotheses ---- *)
+
+Example ex_bytes_ok : bytes_ok ex_b = true /\ nf_gdata (Simple (Z.of_N (len ex_cs)) ex_b) = true.
+Proof. vm_compute. split; reflexivity. Qed.
+
+Example ex_decoded_is_nf :
+  match M_encode ex_gg with
+  | Ok e => bytes_ok (e_glyf e) = true /\
+            match M_decode e with Ok gg => forallb nf_glyph gg = true /\ total_gsize gg <= len (e_glyf e) | _ => False end
+  | _ => False
+  end.
+Proof. vm_compute. repeat split; try reflexivity. discriminate. Qed.
+
+(* The switch to the long loca format needs more than 65535 bytes of glyph
+   data; evaluating that inside Coq overflows the stack of vm_compute, so the
+   format boundary is exhibited on offsets (ex_loca_long above) and on real
+   glyph sets by the correspondence run (sets of 65534, 65536, 131070 and
+   131072 bytes in every tier). *)
